@@ -57,7 +57,7 @@ def ref_timetable(p, seq):
     t = 0.0
     starts = []
     T = p['timeout']
-    listed_only = p['retry_on'] == 'listed'
+    ro = p['retry_on']  # None: retry everything | 'listed': (Listed,) base class | 'sub': (Listed2,) only the subclass
     for k in range(p['retries'] + 1):
         oc = seq[k]
         starts.append(t)
@@ -69,8 +69,10 @@ def ref_timetable(p, seq):
         if kind == 'ok':
             return starts, ('ok', k), end
         retryable = True
-        if listed_only and kind in ('unlisted', 'timeout'):
+        if ro == 'listed' and kind in ('unlisted', 'timeout'):
             retryable = False
+        elif ro == 'sub' and (kind in ('unlisted', 'timeout') or not oc.get('sub')):
+            retryable = False  # an instance of the BASE class is not an instance of the listed subclass
         if not retryable or k == p['retries']:
             return starts, ('raise', k, kind), end
         t = end + p['wait'] * (p['backoff'] ** k)
@@ -82,7 +84,7 @@ def exec_retry(case) -> Result:
     p, seq, cancel_at = case['p'], case['seq'], case.get('cancel_at')
     loop = _loop(case.get('i', 0))
     calls, made = [], {}
-    retry_on = None if p['retry_on'] is None else (Listed,)
+    retry_on = None if p['retry_on'] is None else ((Listed2,) if p['retry_on'] == 'sub' else (Listed,))
 
     @retry(wait=p['wait'], retries=p['retries'], timeout=p['timeout'], retry_on=retry_on, backoff_factor=p['backoff'])
     async def fn():
@@ -192,11 +194,11 @@ class RetryFamily(Family):
         alphabet = ['ok', 'listed', 'unlisted', 'overrun']
         for retries in (0, 1, 2, 3):
             for (w, b, T) in grid:
-                for ro in (None, 'listed'):
+                for ro in (None, 'listed', 'sub'):
                     p = {'retries': retries, 'wait': w, 'backoff': b, 'timeout': T, 'retry_on': ro}
                     for combo in itertools.product(alphabet, repeat=retries + 1):
                         # prefix-closed: skip sequences that differ only after the first terminal outcome
-                        term = next((k for k, c in enumerate(combo) if c == 'ok' or (ro == 'listed' and c in ('unlisted', 'overrun'))), len(combo) - 1)
+                        term = next((k for k, c in enumerate(combo) if c == 'ok' or (ro == 'listed' and c in ('unlisted', 'overrun')) or (ro == 'sub' and (c in ('unlisted', 'overrun') or (c == 'listed' and k % 2 == 0)))), len(combo) - 1)
                         if any(c != 'ok' for c in combo[term + 1:]):
                             continue
                         seq = [{'k': 'ok' if c == 'overrun' else c, 'd': (T + 1.0) if c == 'overrun' else (0.25 if (k + i) % 2 else 0.0), 'sub': (k % 2 == 1)} for k, c in enumerate(combo)]
@@ -207,7 +209,7 @@ class RetryFamily(Family):
         for j in range(n_rand):
             rng = random.Random(f'c19/{seed}/{j}')
             retries = rng.randint(0, 7)
-            p = {'retries': retries, 'wait': rng.choice([0.0, 0.1, 0.75, 3.0]), 'backoff': rng.choice([0.25, 0.5, 1.0, 1.5, 2.0, 3.0]), 'timeout': rng.choice([0.5, 1.0, 5.0]), 'retry_on': rng.choice([None, 'listed'])}
+            p = {'retries': retries, 'wait': rng.choice([0.0, 0.1, 0.75, 3.0]), 'backoff': rng.choice([0.25, 0.5, 1.0, 1.5, 2.0, 3.0]), 'timeout': rng.choice([0.5, 1.0, 5.0]), 'retry_on': rng.choice([None, 'listed', 'sub'])}
             seq = []
             for k in range(retries + 1):
                 c = rng.choice(['ok', 'listed', 'listed', 'listed', 'unlisted', 'overrun'])
@@ -319,6 +321,8 @@ def key_of(scope: str) -> str:
         return 'c:KA'
     if scope == 'c:B1':
         return 'c:KB'
+    if scope == 'g2':
+        return 'g'  # two functions with one semaphore_name share one global semaphore
     return scope
 
 
@@ -378,12 +382,18 @@ def exec_sem(case) -> Result:
     async def gf(i):
         return await body(i)
 
+    @deco('global')
+    async def gf2(i):  # a different function that names the same semaphore: shares its slots
+        return await body(i)
+
     objs = {'A1': KA(), 'A2': KA(), 'B1': KB()}
 
     def call(i):
         sc = callers[i]['scope']
         if sc == 'g':
             return gf(i)
+        if sc == 'g2':
+            return gf2(i)
         kind, obj = sc.split(':')
         if obj not in objs:
             objs[obj] = KA()  # many short-lived instances: one 'self'-scoped semaphore key each
@@ -522,7 +532,7 @@ class SemFamily(Family):
             lax = rng.random() < 0.5
             sem_to = rng.choice([0.05, 0.5, 2.0, 50.0])
             ncall = rng.randint(2, 9)
-            scopes = rng.choice([['g'], ['g'], ['c:A1', 'c:A2'], ['c:A1', 'c:B1'], ['s:A1', 's:A2'], ['g', 'c:A1', 's:A1']])
+            scopes = rng.choice([['g'], ['g', 'g2'], ['c:A1', 'c:A2'], ['c:A1', 'c:B1'], ['s:A1', 's:A2'], ['g', 'c:A1', 's:A1'], ['g', 'g2', 's:A1']])
             callers = []
             for k in range(ncall):
                 sc = rng.choice(scopes)
